@@ -16,6 +16,17 @@ def c13(ck):
                     tlc_workers=8 if ck.tier == "quick" else 12, harness_workers=6, timeout=3400)
 
 
+def c16(ck):
+    ck.rule = ("escape / escape_once: every string of length <= 4 (thorough 5) over {< > & \" ' ; # a l t m p space e-acute} and "
+               "every sequence of <= 3 (4) entity-level tokens (the five entities, bare &, &amp without ;, &lt;;, &#39 without ;); "
+               "url_encode / url_decode: every string of length <= 4 over {% + 2 F f space / e-acute emoji}; strip_html: every string "
+               "of length <= 4 (6) over {< > ! - / s c r i p t a} and every sequence of <= 3 (4) tag-level tokens (<script, </script>, "
+               "<style, </style>, <!--, -->, upper-case variants); non-trivial = non-empty input")
+    ck.assumptions = ["url_decode copies incomplete or non-hex escapes unchanged", "strip_html is the four documented removal passes"]
+    ck.replay_stage("strings", "MC_C16", "MC_C16_quick.cfg" if ck.tier == "quick" else "MC_C16_thorough.cfg",
+                    tlc_workers=8 if ck.tier == "quick" else 12, harness_workers=6, timeout=3400)
+
+
 def c18(ck):
     ck.rule = ("every operation sequence over {PushPlain d, PushSandbox d, PushGlobal, Pop, SetGlobal k v, SetIndex k v} "
                "from every one of the 9 base maps up to the stated length is one TLC state and one replay record; "
@@ -174,7 +185,7 @@ def c20(ck):
     ck.trace_stage("realthreads", ["threads", "--runs", runs], "Trace_Threads", "Trace_Threads.cfg", heap="8g", timeout=3000)
 
 
-PROPS = {"C03": c03, "C04": c04, "C06": c06, "C07": c07, "C08": c08, "C09": c09, "C10": c10, "C13": c13, "C19": c19, "C20": c20, "C05": c05, "C18": c18}
+PROPS = {"C03": c03, "C04": c04, "C06": c06, "C07": c07, "C08": c08, "C09": c09, "C10": c10, "C13": c13, "C16": c16, "C19": c19, "C20": c20, "C05": c05, "C18": c18}
 
 
 def replay_file(prop, path):
